@@ -19,6 +19,12 @@ pub struct Case {
     pub project: Project,
     pub mode: ModeS,
     pub threads: usize,
+    /// keep the files generated with the option on when building with the option off (a build
+    /// must not depend on them), and build "off" first
+    #[serde(default)]
+    pub keep: bool,
+    #[serde(default)]
+    pub off_first: bool,
 }
 
 fn gen_case(c: &mut Choices) -> Case {
@@ -34,8 +40,10 @@ fn gen_case(c: &mut Choices) -> Case {
     let project = gen_project(c, &p);
     Case {
         project,
-        mode: if c.chance(1, 4) { ModeS::Needed } else { ModeS::Build },
+        mode: if c.chance(1, 3) { ModeS::Needed } else { ModeS::Build },
         threads: 1 + c.below(4),
+        keep: c.chance(1, 2),
+        off_first: c.chance(1, 3),
     }
 }
 
@@ -73,11 +81,16 @@ pub fn check(case: &Case, st: &mut Stats) -> Check {
         return Ok(());
     }
     su.write(&case.project);
-    let on = runner::run_free(&su.sc.root, &mk(true));
-    let gen_on = su.generated();
-    su.wipe_generated();
-    let off = runner::run_free(&su.sc.root, &mk(false));
-    let gen_off = su.generated();
+    let first = !case.off_first;
+    let r1 = runner::run_free(&su.sc.root, &mk(first));
+    let g1 = su.generated();
+    if !case.keep {
+        su.wipe_generated();
+    }
+    let r2 = runner::run_free(&su.sc.root, &mk(!first));
+    let g2 = su.generated();
+    let (on, gen_on, off, gen_off) = if first { (r1, g1, r2, g2) } else { (r2, g2, r1, g1) };
+    st.class(if case.keep { "second_build_over_first" } else { "second_build_from_clean_tree" });
     if on.ok != off.ok {
         return viol(
             "C13 verdict-differs",
@@ -159,7 +172,7 @@ pub fn check(case: &Case, st: &mut Stats) -> Check {
 fn reduce(case: &Case) -> Vec<Case> {
     reduce_project(&case.project)
         .into_iter()
-        .map(|p| Case { project: p, mode: case.mode, threads: case.threads })
+        .map(|p| Case { project: p, ..case.clone() })
         .collect()
 }
 
@@ -175,7 +188,7 @@ impl Prop for C13 {
         }
     }
     fn worker(&self, ctx: &mut WorkerCtx) {
-        let total = if ctx.quick { 16_000 } else { 300_000 };
+        let total = if ctx.quick { 30_000 } else { 1_000_000 };
         let n = ctx.share(total);
         ctx.drive(1, n, 400, &gen_case, &check, &reduce);
     }
